@@ -92,3 +92,15 @@ package peer
 //@ func DeriveEd25519Key
 //@   noframe
 //@   requires privKeyOK(privKey)
+
+// ---- C12: public-key encryption is total (no panic for any key, context, message or ciphertext) ----
+//@ func EncryptToEd25519
+//@   noframe
+//@ func DecryptWithEd25519
+//@   noframe
+//@ func EncryptToPubKey
+//@   noframe
+//@   requires pubKeyOK(pubKey)
+//@ func DecryptWithPrivKey
+//@   noframe
+//@   requires privKeyOK(privKey)
